@@ -260,6 +260,14 @@ Definition r_boundary_support (ov : option (list (Qc * Qc))) (f : bsp) (axis sid
   | None => map kv_support (kvs (boundary f axis side))
   end.
 
+(* UserFunction (geometry.py:289-339) of a callable `fn` taking the coordinates in xyz order:
+   eval = fn; pointwise_eval(points) = eval of the unpacked points;
+   grid_eval = utils.grid_eval (utils.py:33-41): meshgrid of the grid axes (indexing='ij'), mesh.reverse(), fn of the mesh,
+   i.e. fn at the reversed (xyz) coordinates of every grid point *)
+Definition u_call {A B} (fn : list A -> B) (xs : list A) : B := fn xs.
+Definition u_pw {A B} (fn : list A -> B) (xs : list A) : B := u_call fn xs.
+Definition u_grid {A B} (fn : list A -> B) (us : list A) : B := fn (rev us).
+
 (* ComposedFunction (geometry.py:341-378), geo = geo2 o geo1 with B-spline operands:
    XY = geo1.grid_eval(grd); np.rollaxis(XY, -1): component i of geo1 is coordinate i (xyz) of geo2 *)
 Definition comp_point (f1 : bsp) (us : list Qc) : list Qc := map (g_val f1 us) (seq 0 (nc f1)).
